@@ -378,7 +378,7 @@ def record_group(seed, n, maxrows, out_path):
         eid += 1
         ev = {"id": eid, "op": method, "K": K, "V": V, "funs": [SPEC_FUN[f] for f in funs], "err": err,
               "unchanged": views_equal(before, table_view(S.table)), "names": None, "out": [], "keys": [[-98]],
-              "wkeys": [[-98]], "calls": [[-98]], "pyfuns": funs}
+              "wkeys": [[-98]], "calls": [[-98]], "pyfuns": funs, "nocalls": False}
         if st == "ok":
             ev["names"] = res.column_names()
             nres = len(res)
@@ -404,7 +404,7 @@ def record_group(seed, n, maxrows, out_path):
                 fs.append(SPEC_FUN[f])
                 outs.append(rat(r, f == "stdev") if st == "ok" else [-94, 1])
             eid += 1
-            evs.append({"id": eid, "op": "reduce", "V": V, "funs": fs, "out": outs})
+            evs.append({"id": eid, "op": "reduce", "V": V, "funs": fs, "out": outs, "nocalls": False})
     with open(out_path, "w") as f:
         for e in evs:
             f.write(json.dumps(e, default=str) + "\n")
